@@ -414,6 +414,8 @@ fn hist_profile() -> Vec<(&'static str, Profile, u32, u32)> {
     p.k_chan = 0;
     p.k_timer = 1;
     p.k_gen = 0;
+    // ping sources also live inside composite sources (next to transient siblings whose leaving shifts the sub-tokens)
+    p.k_comp = 3;
     p.o_handle = 10;
     p.o_token = 8;
     p.o_cause = 12;
